@@ -509,12 +509,12 @@ fn optimum_cfg(cfg: &WCfg, ctx: &Ctx) -> Report {
         }
         qlists.push(vec![i, (i + 3) % n, (i + 5) % n]);
     }
-    let step = ctx.tier.pick(5, 1);
+    let step = ctx.tier.pick(5, 2);
     for (fi, ((name, lvl, want), (_, _, p))) in reference.into_iter().zip(built.into_iter()).enumerate() {
         if rep.n_violations > 8 {
             break;
         }
-        if want.is_const() || (lvl != 0 && ctx.tier == Tier::Quick) {
+        if want.is_const() || (lvl != 0 && (ctx.tier == Tier::Quick || fi % 3 != 0)) {
             continue;
         }
         if bigtt::bdd_big(p, n, &|l| cfg.idx(l)).ok().as_ref() != Some(&want) {
